@@ -7,7 +7,7 @@ every case is one run of harness/c20_threads (flavour tsan) in its own process
 with TSAN_OPTIONS=log_path=<workdir>/..., the harness' own monitors report
 through the usual JSON-lines file, ThreadSanitizer reports are parsed here.
 """
-import json, os, re, shutil, signal, subprocess, tempfile, time, concurrent.futures
+import json, os, re, shutil, signal, subprocess, tempfile, threading, time, concurrent.futures
 
 import build
 from vflib import driver
@@ -26,6 +26,7 @@ STALL_S = 20          # an API call that has not returned / no progress at all f
 WALL_S = 900          # hard limit per process
 MAX_STACKS_PER_KEY = 6
 MAX_STALL_REPRO = 3   # distinct stall pictures reproduced in isolation
+MAX_STALLS = 8        # watchdog expiries after which the remaining cases are not started
 
 
 def plan(tier):
@@ -264,11 +265,25 @@ def custom(spec, tier, seed, res, repo):
             res.harness_errors.append("harness self-test failed (rc %d): %s" % (st.returncode, (st.stdout + st.stderr)[-600:]))
             return
         nproc = max(1, min(driver.NCPU, len(cases)))
+        stop = threading.Event()          # enough watchdog expiries seen: every one costs STALL_S of wall clock
+
+        def guarded(i, m, p):
+            return None if stop.is_set() else run_one(exe, tier, seed, i, m, p, workdir)
+
+        skipped = 0
         with concurrent.futures.ThreadPoolExecutor(max_workers=nproc) as ex:
-            futs = {ex.submit(run_one, exe, tier, seed, i, m, p, workdir): (i, m, p) for i, (m, p) in enumerate(cases)}
+            futs = {ex.submit(guarded, i, m, p): (i, m, p) for i, (m, p) in enumerate(cases)}
             for fu in concurrent.futures.as_completed(futs):
                 i, m, p = futs[fu]
-                absorb(res, fu.result(), repo, m, i, seen, stalls)
+                r = fu.result()
+                if r is None:
+                    skipped += 1
+                    continue
+                absorb(res, r, repo, m, i, seen, stalls)
+                if len(stalls) >= MAX_STALLS:
+                    stop.set()
+        if skipped:
+            res.inconclusive.append("run cut short after %d watchdog expiries: %d cases not run" % (len(stalls), skipped))
         # A stall counts only when it is reproduced in isolation (then with gdb
         # stacks, DESIGN.md 1.3).  One representative per stall picture.
         res.count("watchdog_expiries", len(stalls))
